@@ -89,7 +89,7 @@ func runC20(c vt.Case) vt.Event {
 	errs := 0
 	for _, tenant := range vt.Strs(c["tenants"]) {
 		for k := 0; k < vt.Int(c["nseries"]); k++ {
-			ts := series(vt.Int64(c["sseed"]), k)
+			ts := seriesMixed(vt.Int64(c["sseed"]), k)
 			b, err1 := getReplicas(before, tenant, ts, rf)
 			a, err2 := getReplicas(after, tenant, ts, rf)
 			if err1 != nil || err2 != nil {
